@@ -5,11 +5,7 @@ package impl
 import (
 	"encoding/binary"
 	"math/bits"
-
-	"github.com/bronlabs/bron-crypto/pkg/base/ct"
 )
-
-func ctChoice(c uint64) ct.Choice { return ct.Choice(c) }
 
 // E1 harnesses for pkg/base/curves/edwards25519/impl/fp.go (property C14 "field arithmetic equals
 // the mathematics"): (*Fp).SetBytesWide, SetBytes and Bytes, p = 2^255 - 19.
@@ -29,6 +25,20 @@ func ctChoice(c uint64) ct.Choice { return ct.Choice(c) }
 // The library computes the same residue another way (51-bit limbs, lo + 19*bit255 + 38*hi +
 // 722*bit511), so the obligation is exactly "the constants for 2^255, 2^256, 2^511 mod p and the
 // carry handling are right".
+//
+// What is proved, and how (details at the sections below):
+//   - ALL 64-byte inputs, and lengths 0, 1, 31, 32, 33, 63: H_ed25519fp_wide_composed_64 / _short,
+//     in two machine-checked layers: full-width lemmas about the five generated primitives
+//     (H_ed25519fp_cert_*) and the real SetBytesWide/Bytes bodies over contracts made of exactly
+//     those lemmas; the statement is  R < p  and  R + K*p == lo + 19*b255 + 38*hi + 722*b511
+//     with X = lo + 2^255*b255 + 2^256*hi + 2^511*b511, and the three congruences
+//     2^255 = 19, 2^256 = 38, 2^511 = 722 (mod p) are checked on concrete limbs in
+//     H_ed25519fp_constants (independently of the library).
+//   - The MONOLITHIC query (real primitives end to end against the 64-bit reference above) does
+//     not finish at 512 symbolic bits on any solver the engine offers (H_*_monolithic_EXPECT_
+//     INCONCLUSIVE keep the attempts); it does finish for lengths <= 32 (H_ed25519fp_wide_short_
+//     monolithic) and for 32 symbolic bits at length 64 (H_ed25519fp_wide_shrunk_k1_monolithic).
+//   - length 65, SetBytes / Bytes: direct.
 
 // ---- 64-bit limb helpers (math/bits.Add64/Sub64/Mul64 are exact in the engine) ----
 
@@ -168,6 +178,29 @@ func H_ed25519fp_constants() {
 	q[2], c = bits.Add64(p[2], 0, c)
 	q[3], c = bits.Add64(p[3], 0, c)
 	verifAssert("const.p_plus_19_is_2^255", q == [4]uint64{0, 0, 0, 1 << 63} && c == 0)
+	// 2*p + 38 == 2^256 and (2^256 + 38)*p + 722 == 2^511, on 8 concrete limbs
+	mulSmall := func(x [8]uint64, m uint64) (out [8]uint64) {
+		var carry uint64
+		for i := range x {
+			hi, lo := bits.Mul64(x[i], m)
+			var cc uint64
+			out[i], cc = bits.Add64(lo, carry, 0)
+			carry = hi + cc
+		}
+		return out
+	}
+	add8 := func(x, y [8]uint64) (out [8]uint64) {
+		var cc uint64
+		for i := range x {
+			out[i], cc = bits.Add64(x[i], y[i], cc)
+		}
+		return out
+	}
+	p8 := [8]uint64{p[0], p[1], p[2], p[3]}
+	pShift256 := [8]uint64{0, 0, 0, 0, p[0], p[1], p[2], p[3]}
+	verifAssert("const.2p_plus_38_is_2^256", add8(mulSmall(p8, 2), [8]uint64{38}) == [8]uint64{0, 0, 0, 0, 1})
+	verifAssert("const.(2^256+38)p_plus_722_is_2^511",
+		add8(add8(pShift256, mulSmall(p8, 38)), [8]uint64{722}) == [8]uint64{0, 0, 0, 0, 0, 0, 0, 1 << 63})
 	for _, tc := range []struct {
 		bit  int
 		want uint64
